@@ -3,6 +3,7 @@ import HpxVerif.Lemmas.BmocNot
 import HpxVerif.Lemmas.BmocXor3
 import HpxVerif.Lemmas.BmocOr2
 import HpxVerif.Lemmas.BmocCanon
+import HpxVerif.Lemmas.BmocLaws
 
 set_option autoImplicit false   -- an unknown identifier in a statement is an error, never a new variable
 
@@ -206,5 +207,20 @@ theorem or_not_allsky (A : BMOC) (hD : A.dmax ≤ 29) (hv : ∀ r ∈ A.entries,
     Tri.max (stOf A.dmax A.cells x) (stOf A.dmax (notCells A.cells) x) = .full := by
   rw [(notCells_spec A.dmax hD A.cells hw hr).1 x hx]
   rcases stOf_moc mA (D := A.dmax) x with h1 | h1 <;> simp [h1, Tri.not, Tri.max]
+
+/-- **`or` is commutative on plain MOCs as a STRUCTURAL equality** (`a | b` and `b | a` are the same entries, and both
+    are computed): the final `pack` makes the union canonical -/
+theorem or_comm (A B : BMOC) (D : Nat) (hmax : max A.dmax B.dmax = D) (hD : D ≤ 29)
+    (hwA : WF D A.cells) (hwB : WF D B.cells) (hrA : ∀ c ∈ A.cells, InR c) (hrB : ∀ c ∈ B.cells, InR c)
+    (mA : IsMoc A.cells) (mB : IsMoc B.cells) : BMOC.or A B = BMOC.or B A ∧ (BMOC.or A B).isSome :=
+  bmoc_or_comm_moc A B D hmax hD hwA hwB hrA hrB mA mB
+
+/-- **de Morgan on plain MOCs**: `(not a) or (not b)` is computed and contains exactly the cells of `not (a and b)` -/
+theorem de_morgan (D : Nat) (hD : D ≤ 29) (a b : List Cell) (ha : WF D a) (hb : WF D b)
+    (hra : ∀ c ∈ a, InR c) (hrb : ∀ c ∈ b, InR c) :
+    ∃ l, orCellsUnpacked (notCells a) (notCells b) = some l ∧
+      ∀ x, x < 12 * 4 ^ D → (mem D l x ↔ mem D (notCells (andCells a b)) x) := by
+  obtain ⟨l, hl, h⟩ := de_morgan_or_not D hD a b ha hb hra hrb
+  exact ⟨l, hl, fun x hx => by unfold mem; rw [h x hx]⟩
 
 end Hpx.C07
